@@ -279,7 +279,8 @@ def cases(draw, plugin=False):
         case["plugin"] = {"field_stems": field_stems, "check_stems": check_stems,
                           "files": draw(st.sampled_from([1, 1, 2, "two-folders"])),
                           "how": draw(st.sampled_from(["import_plugins", "user-code-after-first-cid"])),
-                          "module": draw(st.sampled_from(["myplugins", "c20_recording_plugins"]))}
+                          # '__init__': the plugin folder is a package and the classes live in its marker file
+                          "module": draw(st.sampled_from(["myplugins", "c20_recording_plugins", "__init__"]))}
         case["plugin"]["folder"] = draw(st.sampled_from(["plugins", "plugins", "plug[1]", "my plugins", "pl*gins?", "plüg"]))
         # how the plugin classes are built: on their own, with a subclass next to them, or from a mixin
         case["plugin"]["style"] = draw(st.sampled_from(recplugins.PLUGIN_STYLES))
